@@ -11,7 +11,7 @@ def c12Step (_ : Unit) (req : List Sx) : Unit × String :=
     match BArg.ofSx a with
     | none => ((), "bad-arg")
     | some arg =>
-      match callInteger name arg with
+      match callBuiltin name arg with
       | some o => ((), renderOutcome o)
       | none => ((), "no-model")
   | _ => ((), "bad-request")
